@@ -303,6 +303,11 @@ func (e *Engine) Structural() []*Obligation {
 			key := sname + "." + st.Field(i).Name()
 			_, declared := e.cs.Fields[key]
 			add("field.declared("+key+")@package", []string{"C20"}, declared, e.pos(st.Field(i).Pos()), "shared field without a class declaration")
+			if fd := e.cs.Fields[key]; fd != nil && fd.Class != "guarded_by" {
+				if bad := unsafeLibraryType(st.Field(i).Type(), 0); bad != "" {
+					add("threadsafe.field("+key+")@package", []string{"C20"}, false, e.pos(st.Field(i).Pos()), "shared field reaches a "+bad+", which is not safe for concurrent use, and is not guarded by a lock")
+				}
+			}
 		}
 	}
 
@@ -474,4 +479,35 @@ func (u *Unit) checkObjInvs(fr *Frame, st *State, where string) {
 			u.oblige("objinv("+oi.Lock+")."+oi.Clause.Label, propList(oi.Clause.Prop), "", And(st.pc, u.allocPC[k]), u.evalBool(env, oi.Clause.Expr), where, oi.Clause.Src)
 		}
 	}
+}
+
+// unsafeLibraryType: the first library type documented as not safe for concurrent use that a value of type t holds
+// or points to ("" if none), looking through named structs, pointers, slices and arrays.
+func unsafeLibraryType(t types.Type, depth int) string {
+	if depth > 4 {
+		return ""
+	}
+	switch types.TypeString(t, nil) {
+	case "math/rand.Rand", "math/rand/v2.Rand", "math/rand/v2.PCG", "math/rand/v2.ChaCha8", "bytes.Buffer", "strings.Builder", "bufio.Reader", "bufio.Writer":
+		return types.TypeString(t, nil)
+	}
+	switch x := t.Underlying().(type) {
+	case *types.Pointer:
+		return unsafeLibraryType(x.Elem(), depth+1)
+	case *types.Slice:
+		return unsafeLibraryType(x.Elem(), depth+1)
+	case *types.Array:
+		return unsafeLibraryType(x.Elem(), depth+1)
+	case *types.Struct:
+		if n, ok := t.(*types.Named); ok && n.Obj().Pkg() != nil && !strings.HasSuffix(n.Obj().Pkg().Path(), "/leader") {
+			// a type of another package: its own documentation decides (only the listed ones are known to be unsafe)
+			return ""
+		}
+		for i := 0; i < x.NumFields(); i++ {
+			if b := unsafeLibraryType(x.Field(i).Type(), depth+1); b != "" {
+				return b
+			}
+		}
+	}
+	return ""
 }
